@@ -17,6 +17,8 @@ def run(chk):
     X.suspend_decision(chk, "C07")
     X.on_task_complete(chk, "C07", want=("C07",))
     X.timer_loop(chk, "C07")
+    from . import lockset
+    lockset.lock_discipline(chk, "C07", ["_pending_resumes", "_schedule_counter"], cls_key="concurrency.executor.TimerScheduler")   # the heap of pending resumes is shared by the timer thread and the branches' done-callbacks
     from . import misc_contracts
     misc_contracts.models_transitions(chk, "C07")
     X.resubmitter_total(chk, "C07")
